@@ -186,6 +186,26 @@ def judge_idlist(case):
             bad('passthrough', '')
         if scoping.ns_ids_t(list(ids)).items != ids:
             bad('alias-fn', '')
+        # every notation hands out a FRESH value: changing a value obtained from a notation in place must not change
+        # what the same notation yields the next time
+        makers = [('list', lambda: namespaceids_t(list(ids))), ('NamespaceIds', lambda: NamespaceIds(list(ids))),
+                  ('alias-fn', lambda: scoping.ns_ids_t(list(ids))),
+                  ('dotted', lambda: namespaceids_t('.'.join(ids))), ('colon', lambda: namespaceids_t('::'.join(ids))),
+                  ('alias-fn-dotted', lambda: scoping.ns_ids_t('.'.join(ids)))]
+        if not ids:
+            makers += [('none', lambda: namespaceids_t(None)), ('empty-tree', lambda: NamespaceTree().fqn)]
+        for label, make in makers:
+            try:
+                first = make()
+            except Exception:  # pylint: disable=broad-except
+                continue
+            if first is None:
+                continue
+            first += NamespaceIds(['zz'])
+            first.items.append('yy')
+            again = make()
+            if again.items != ids:
+                bad('notation-hands-out-a-shared-value', f'{label}: after changing the first value in place the notation yields {again.items}')
         # operators: every split of ids into left + right
         for cut in range(len(ids) + 1):
             left, right = NamespaceIds(ids[:cut]), NamespaceIds(ids[cut:])
